@@ -16,7 +16,7 @@ var idxAssume = []string{
 
 var metas = map[string]PropMeta{
 	"C01": {
-		Explanation: "PIPE-CLONE, LOST-UPDATE (rewriters), ENC-MAPKEY and ENC-CMP (rewriters and flatten.go), REF-EQ, ENC-FRAGSPLIT, ENC-CONSUMER, ENC-SUBSTR, PIPE-REBASE, LOOPVAR-ADDR, REF-BASENAME, SYNC-RECORD. Each is a necessary condition: violating it changes the meaning of some bundle in W.",
+		Explanation: "PIPE-CLONE, LOST-UPDATE (rewriters), ENC-MAPKEY and ENC-CMP (rewriters and flatten.go), REF-EQ, ENC-FRAGSPLIT, ENC-CONSUMER, ENC-SUBSTR, PIPE-REBASE, LOOPVAR-ADDR, REF-BASENAME, SYNC-RECORD. Each is a necessary condition: violating it changes the meaning of some bundle in W. ENC-ROOTEDCLEAN, EFFECT-SHORTCIRCUIT.",
 		NotDecided:  []string{"bisimulation of the $ref-unfolded documents", "that a re-pointed $ref designates the same schema", "normalize.RebaseRef's path arithmetic", "OAIGen de-duplication", "that paths/operations/parameters are otherwise untouched"},
 		Assumptions: []string{"string encodings: N raw name, T pointer-escaped token, P joined tokens, K '#'+P, U URL-escaped K; signatures of jsonpointer.Escape/Unescape, path.Join/Base/Dir, url.PathUnescape, Ref.String as read from their sources; names contain no '%'"},
 	},
@@ -26,7 +26,7 @@ var metas = map[string]PropMeta{
 		Assumptions: []string{"the single transient non-canonical write (stripOAIGenForRef re-pointing parents to the first parent) is followed by pointer naming, as its return value requests"},
 	},
 	"C03": {
-		Explanation: "PIPE-SAVE-NAME, PIPE-WHOWRITES-DEFS, GUARD-UNIQ, GUARD-COMPLEXMOVE, GUARD-COMPLEXDEF, GUARD-REINLINE, GUARD-DOCRULES, COV-KEYGROUPS, NAME-TOTAL, PIPE-ORDER/inline, COV-METHODSET.",
+		Explanation: "PIPE-SAVE-NAME, PIPE-WHOWRITES-DEFS, GUARD-UNIQ, GUARD-COMPLEXMOVE, GUARD-COMPLEXDEF, GUARD-REINLINE, GUARD-DOCRULES, COV-KEYGROUPS, NAME-TOTAL, PIPE-ORDER/inline, COV-METHODSET. ENC-NUMRENDER.",
 		NotDecided:  []string{"that every position is visited (C11/C12)", "the re-iteration fixpoint after de-duplication re-inlines a complex schema"},
 		Assumptions: []string{"strings.EqualFold is the case-insensitive comparison meant by the statement"},
 	},
@@ -36,17 +36,17 @@ var metas = map[string]PropMeta{
 		Assumptions: []string{"the kinds of value jsonpointer.Get can return for an analyzer key are *Schema, Schema, *SchemaOrArray, *SchemaOrBool, and the containers of a by-value schema are Definitions, map[string]Schema, []Schema, *SchemaOrArray, SchemaProperties (read from go-openapi/spec)"},
 	},
 	"C06": {
-		Explanation: "ENC-MAPKEY in removeUnusedSinglePass, TERM-PROGRESS, PIPE-ORDER/clearShared and /removeUnused, PIPE-NOREFILL.",
+		Explanation: "ENC-MAPKEY in removeUnusedSinglePass, TERM-PROGRESS, PIPE-ORDER/clearShared and /removeUnused, PIPE-NOREFILL. TERM-PROGRESS/loop (the repeat loop runs exactly while the pass reports progress).",
 		NotDecided:  []string{"that the reference list is complete (C11)", "meaning preservation (C01)"},
 		Assumptions: []string{"names contain no '%' (url.PathUnescape is then the inverse of the escaping done by Ref.String)"},
 	},
 	"C07": {
-		Explanation: "ORD-LOOP over every unordered loop below Flatten, ORD-SINK over every use of an order-tainted slice or field, ORD-TOTAL (distinct elements are separated) and ORD-STRICT (strict weak order, by exhaustive evaluation over the orderings of the compared terms) over every comparator that sorts below Flatten.",
+		Explanation: "ORD-LOOP over every unordered loop below Flatten, ORD-SINK over every use of an order-tainted slice or field, ORD-TOTAL (distinct elements are separated) and ORD-STRICT (strict weak order, by exhaustive evaluation over the orderings of the compared terms) over every comparator that sorts below Flatten. ORD-CARRIED.",
 		NotDecided:  []string{"three loops frozen as assumptions (see exempt obligations)", "comparators outside the modelled fragment (a comparison between different terms, a call to another comparator): ORD-STRICT then emits a note, no verdict", "byte-identical serialisation"},
 		Assumptions: []string{"Go map iteration order is the only source of nondeterminism (single goroutine, no time or randomness below Flatten)", "distinct iterations of a loop over a map write distinct keys when the key is the loop variable"},
 	},
 	"C09": {
-		Explanation: "NIL-DEREF (with lookup pairs and typed-nil identity), TERM-REC, TERM-THREAD, TERM-SELFINLINE, TERM-VISITED/COUNTER (fixpoint loops inventoried as exempt), ERR-PROP/ERR-DROP, ERR-RESOLVE-SKIPPED, COV-EXPANDOPTS, PANIC-UNREACH, PANIC-INDEX, PANIC-SLICEBOUND, PANIC-BOUNDARY (the calls into the resolvers of go-openapi/spec run under a recover that returns an error), COV-ALLREFS, TERM-IMPORT-PROGRESS, ENC-MUSTREF (known finding).",
+		Explanation: "NIL-DEREF (with lookup pairs and typed-nil identity), TERM-REC, TERM-THREAD, TERM-SELFINLINE, TERM-VISITED/COUNTER (fixpoint loops inventoried as exempt), ERR-PROP/ERR-DROP, ERR-RESOLVE-SKIPPED, COV-EXPANDOPTS, PANIC-UNREACH, PANIC-INDEX, PANIC-SLICEBOUND, PANIC-BOUNDARY (the calls into the resolvers of go-openapi/spec run under a recover that returns an error), COV-ALLREFS, TERM-IMPORT-PROGRESS, ENC-MUSTREF (known finding). NIL-ALLOC, GUARD-COMMAOK.",
 		NotDecided:  []string{"termination of importReferences and stripPointersAndOAIGen", "index and slice bounds other than constant indexes into split keys and parameters used as slice bounds", "panics inside jsonpointer and swag, and inside go-openapi/spec outside the five resolver calls covered by PANIC-BOUNDARY", "which load fails at run time"},
 		Assumptions: []string{"a call does not nil-out a field of a value it receives", "documents are finite trees"},
 	},
@@ -71,22 +71,22 @@ var metas = map[string]PropMeta{
 		Assumptions: idxAssume,
 	},
 	"C15": {
-		Explanation: "Nil-guard dataflow over the four lookups (sources: pointer/map fields of go-openapi/spec structs, map lookups of *spec.T without comma-ok), guard rules on the merge function found by role (takes []spec.Parameter, map[string]spec.Parameter, callback), ordering of the two merge calls in each lookup, GUARD-OPFOUND (every merge happens under a fact that establishes the operation asked for, followed to the call sites of closures and unexported helpers), ENC-OVERRIDEKEY (no x-… extension and no non-injective function of the name in the override key: known finding at swag.ToGoName), exhaustiveness of the id lookup over the seven methods.",
+		Explanation: "Nil-guard dataflow over the four lookups (sources: pointer/map fields of go-openapi/spec structs, map lookups of *spec.T without comma-ok), guard rules on the merge function found by role (takes []spec.Parameter, map[string]spec.Parameter, callback), ordering of the two merge calls in each lookup, GUARD-OPFOUND (every merge happens under a fact that establishes the operation asked for, followed to the call sites of closures and unexported helpers), ENC-OVERRIDEKEY (no x-… extension and no non-injective function of the name in the override key: known finding at swag.ToGoName), exhaustiveness of the id lookup over the seven methods. GUARD-RESOLVE (whole pointer), GUARD-COMMAOK.",
 		NotDecided:  []string{"what jsonpointer returns for exotic $ref targets (trusted base)"},
 		Assumptions: []string{"a call does not nil-out a field of a value it receives", "function results and parameters of exported functions are not maybe-nil sources (only optional fields of the loaded document are)"},
 	},
 	"C17": {
-		Explanation: "Guard-dominance rules over structural path conditions for every store into the primary reachable from Mixin, structured path enumeration of each reporting merge loop, flow of every helper's collision list into the result, coverage of the sections named in the statement (from write-effect summaries), write set rooted at the primary only, nil-guard dataflow including initPrimary's ensures-summary.",
+		Explanation: "Guard-dominance rules over structural path conditions for every store into the primary reachable from Mixin, structured path enumeration of each reporting merge loop, flow of every helper's collision list into the result, coverage of the sections named in the statement (from write-effect summaries), write set rooted at the primary only, nil-guard dataflow including initPrimary's ensures-summary. GUARD-COMMAOK, EFFECT-SHORTCIRCUIT.",
 		NotDecided:  []string{"reflect.DeepEqual on security requirements", "exact collision count for inputs where one key collides in several helpers at once beyond one entry per colliding key per helper"},
 		Assumptions: []string{"range over a slice visits mixins in order (language semantics)", "a call does not nil-out a field of a value it receives"},
 	},
 	"C18": {
-		Explanation: "Exhaustiveness of the operation enumerator over PathItemProps, and guard/ordering rules at the single rename site: only on collision, only for non-empty ids, new id built from old id + 'Mixin' + index, recorded afterwards on every path, primary ids collected first.",
+		Explanation: "Exhaustiveness of the operation enumerator over PathItemProps, and guard/ordering rules at the single rename site: only on collision, only for non-empty ids, new id built from old id + 'Mixin' + index, recorded afterwards on every path, primary ids collected first. ENC-NUMRENDER.",
 		NotDecided:  []string{"uniqueness when the precondition of the statement is violated"},
 		Assumptions: []string{"ids are compared as Go strings"},
 	},
 	"C19": {
-		Explanation: "COV-METHODS, NIL-DEREF, GUARD-DESC, LOST-UPDATE and WRITESET over FixEmptyResponseDescriptions and everything it reaches.",
+		Explanation: "COV-METHODS, NIL-DEREF, GUARD-DESC, LOST-UPDATE and WRITESET over FixEmptyResponseDescriptions and everything it reaches. EFFECT-SHORTCIRCUIT, GUARD-COMMAOK.",
 		NotDecided:  []string{},
 		Assumptions: []string{"Ref.GetURL() != nil characterises a $ref response (go-openapi/jsonreference)"},
 	},
@@ -110,7 +110,7 @@ var metas = map[string]PropMeta{
 		Assumptions: []string{"spec.ExpandSpec expands schema $refs when SkipSchemas is false (read from its source, not analysed)"},
 	},
 	"C14": {
-		Explanation: "Abstract evaluation of analysis.New for the operations index and the required-media/security unions, exhaustiveness over the seven *spec.Operation fields, upper-case discipline of insertion and lookup, the nil-vs-empty guard shape of the precedence functions, ENC-FORMAT (document strings are operands of formatting calls, never format strings), GUARD-INHERIT and GUARD-NOFILTER.",
+		Explanation: "Abstract evaluation of analysis.New for the operations index and the required-media/security unions, exhaustiveness over the seven *spec.Operation fields, upper-case discipline of insertion and lookup, the nil-vs-empty guard shape of the precedence functions, ENC-FORMAT (document strings are operands of formatting calls, never format strings), GUARD-INHERIT and GUARD-NOFILTER. ENC-RAWKEY, ENC-SPLITJOIN.",
 		NotDecided:  []string{"the values of the precedence/union tables on concrete lists (value-level)", "OperationForName on duplicate or empty ids (outside the quantifier)"},
 		Assumptions: idxAssume,
 	},
